@@ -103,6 +103,50 @@ def check_precedence(ctx, rule_id, fx, which, ty, pratt_name, kinds, op_rule, le
     lv = pratt_levels(pts[pratt_name])
     site = ctx.site(m.prec)
     n = 0
+    # the token sequence handed to the Pratt parser: `prefix* operand (infix prefix* operand)*` - any number of prefix operators before every
+    # operand (the printers write `a - --b` without parentheses), one infix operator between two operands
+    from . import grammar as _grammar
+    g = _grammar.load(fx, which)
+    tab = pts[pratt_name]
+    tab_ops = set(tab["infix"]) | set(tab["prefix"]) | set(tab["postfix"])
+
+    def ops_of(name, seen=()):
+        if name in tab_ops:
+            return {name}
+        try:
+            alts = g.alternatives(name)
+        except Exception:
+            return None
+        if name in seen or not all(a["e"] == "ident" for a in alts):
+            return None
+        out = set()
+        for a in alts:
+            r = ops_of(a["v"], seen + (name,))
+            if r is None:
+                return None
+            out |= r
+        return out
+
+    def flat_seq(e):
+        return flat_seq(e["a"]) + flat_seq(e["b"]) if e["e"] == "seq" else [e]
+    fed = []
+    for rname in g.order if hasattr(g, "order") else []:
+        parts = flat_seq(g.rule(rname)["expr"])
+        idents = [x["v"] for x in parts if x["e"] == "ident"] + [y["v"] for x in parts if x["e"] in ("rep", "rep1", "opt") for y in flat_seq(x["x"]) if y["e"] == "ident"]
+        if "EOI" in idents or ops_of(rname) is not None:
+            continue          # `x_eoi = _{ x ~ EOI }`: an entry point for one token class, not an expression
+        if any(ops_of(i_) == set(tab["infix"]) for i_ in idents):
+            fed.append((rname, parts))
+    shape_ok = len(fed) == 1
+    if shape_ok:
+        rname, parts = fed[0]
+        is_pre = lambda x: x["e"] == "rep" and x["x"]["e"] == "ident" and ops_of(x["x"]["v"]) == set(tab["prefix"])
+        shape_ok = len(parts) == 3 and is_pre(parts[0]) and parts[1]["e"] == "ident" and parts[2]["e"] == "rep"
+        if shape_ok:
+            tail = flat_seq(parts[2]["x"])
+            shape_ok = len(tail) == 3 and tail[0]["e"] == "ident" and ops_of(tail[0]["v"]) == set(tab["infix"]) and is_pre(tail[1]) and tail[2] == parts[1]
+    ctx.add(rule_id, "%s:operand-shape" % pratt_name, shape_ok, "src/parsing/%s/grammar.pest" % ("asp/mini_gringo" if which == "asp" else "fol/sigma_0"),
+            "the rule feeding %s is `prefix* operand (infix prefix* operand)*`: every operand may carry any number of prefix operators: %s" % (pratt_name, [r for r, _ in fed]))
     for pk, (pv, pkind, prule) in kinds.items():
         if pkind == "leaf":
             continue
